@@ -578,6 +578,24 @@ func rl3CloneReadOnly(w *World) {
 						}
 					}
 				}
+			case *ast.CallExpr:
+				// append(<repeated field of a descriptor proto>, …) writes into that proto's backing
+				// array whenever it has spare capacity — for the original that is storage shared with
+				// every other clone of the same result
+				if isBuiltinCall(info, s, "append") && len(s.Args) > 0 {
+					if sel, ok := ast.Unparen(s.Args[0]).(*ast.SelectorExpr); ok {
+						if tv, ok := info.Types[sel.X]; ok {
+							t := tv.Type
+							if pt, ok := t.(*types.Pointer); ok {
+								t = pt.Elem()
+							}
+							if nn, ok := t.(*types.Named); ok && nn.Obj().Pkg() != nil && nn.Obj().Pkg().Path() == descpbPath {
+								bad++
+								w.violation("clone-readonly|"+b.Label+"|append "+render(sel), s.Pos(), "index re-creation appends to "+render(sel)+", a repeated field of a descriptor proto: when the slice has spare capacity the elements are written into the proto's own backing array — storage of the original that every concurrent clone of the same result shares (data race, and the original is modified)")
+							}
+						}
+					}
+				}
 			case *ast.BranchStmt:
 				bad++
 				w.violation("clone-noskip|"+b.Label, s.Pos(), "a "+s.Tok.String()+" in the index re-creation can skip an element: its AST node is then missing from the clone's index")
@@ -585,7 +603,7 @@ func rl3CloneReadOnly(w *World) {
 			return true
 		})
 		if bad == 0 {
-			w.ok("clone-readonly|"+b.Label, b.Decl.Pos(), "writes only clone.nodes; no assignment into a descriptor proto; no loop skipping")
+			w.ok("clone-readonly|"+b.Label, b.Decl.Pos(), "writes only clone.nodes; no assignment into and no append onto a descriptor proto's field; no loop skipping")
 		}
 	}
 	w.floor("index re-creation functions in parser/clone.go", n, 6)
